@@ -250,6 +250,35 @@ func CheckC19(run *evid.Run) {
 			}
 		}
 	}
+	// clock ids that are views of ONE roomy buffer (a caller that sliced its keys out of a larger allocation):
+	// comparing must neither depend on nor write into the spare capacity
+	roomy := make([]byte, 65, 1024)
+	for k := range roomy {
+		roomy[k] = byte(k + 1)
+	}
+	var al []*entry.Entry
+	for k := 0; k < 4; k++ {
+		al = append(al, &entry.Entry{Hash: foreignCid(fmt.Sprintf("alias-%d", k)), Clock: entry.NewLamportClock(roomy[:65], 5), LogID: "x", Payload: []byte("al")})
+	}
+	for round := 0; round < 2; round++ {
+		for _, a := range al {
+			for _, b := range al {
+				c19Pair(run, a, b, "clock ids aliasing one buffer with spare capacity")
+				for _, c := range al {
+					c19Triple(run, a, b, c, "clock ids aliasing one buffer with spare capacity")
+				}
+			}
+		}
+	}
+	{
+		var es []iface.IPFSLogEntry
+		for _, e := range al {
+			es = append(es, e)
+		}
+		c19Sort(run, es, "clock ids aliasing one buffer with spare capacity")
+	}
+	run.Count("aliased_clock_id_pairs", 2*len(al)*len(al))
+	run.NonTrivial("pair/aliased-clock-ids")
 	for _, a := range sd {
 		for _, b := range sd {
 			c19Pair(run, a, b, "same-digest identifiers")
